@@ -513,13 +513,13 @@ func (m *Machine) Apply(a *Action) (Outcome, error) {
 		res := c.DeliverTx(bz)
 		return Outcome{OK: res.Code == 0, Included: res.Code == 0, Note: res.Log}, nil
 	case "optIn":
-		msg := &operatortypes.OptIntoAVSReq{FromAddress: m.W.Operators[a.Op].Bech32(), AvsAddress: m.W.AvsAddr, PublicKeyJSON: m.Keys[a.Key].Wrapped.ToJSON()}
+		msg := &operatortypes.OptIntoAVSReq{FromAddress: m.W.Operators[a.Op].Bech32(), AvsAddress: m.W.AvsAddr, PublicKeyJSON: keyJSON(m, a)}
 		return m.cosmosAs(a, m.W.Operators[a.Op], msg)
 	case "optOut":
 		msg := &operatortypes.OptOutOfAVSReq{FromAddress: m.W.Operators[a.Op].Bech32(), AvsAddress: m.W.AvsAddr}
 		return m.cosmosAs(a, m.W.Operators[a.Op], msg)
 	case "setKey":
-		msg := &operatortypes.SetConsKeyReq{Address: m.W.Operators[a.Op].Bech32(), AvsAddress: m.W.AvsAddr, PublicKeyJSON: m.Keys[a.Key].Wrapped.ToJSON()}
+		msg := &operatortypes.SetConsKeyReq{Address: m.W.Operators[a.Op].Bech32(), AvsAddress: m.W.AvsAddr, PublicKeyJSON: keyJSON(m, a)}
 		return m.cosmosAs(a, m.W.Operators[a.Op], msg)
 	case "msgUnjail":
 		// the operator asks x/slashing to lift its jail (real MsgUnjail through DeliverTx)
@@ -731,4 +731,25 @@ func simulatable(kind string) bool {
 		return true
 	}
 	return strings.HasPrefix(kind, "avs")
+}
+
+// keyJSON renders the consensus key an opt-in or key change carries; a.Pad > 0 selects a
+// malformed variant (another key type, a key of the wrong length, no key, no JSON at all).
+func keyJSON(m *Machine, a *Action) string {
+	good := m.Keys[a.Key].Wrapped.ToJSON()
+	switch a.Pad {
+	case 1:
+		return `{"@type":"/cosmos.crypto.secp256k1.PubKey","key":"A2pVJ0mCq3N0lBz0G9wCmIeUqb3S7O9B1n3YbT0gDgXa"}`
+	case 2:
+		return `{"@type":"/cosmos.crypto.ed25519.PubKey","key":"AQID"}`
+	case 3:
+		return ""
+	case 4:
+		return "not json"
+	case 5:
+		return strings.Replace(good, "ed25519", "sr25519", 1)
+	case 6:
+		return `{"@type":"/cosmos.crypto.ed25519.PubKey","key":"AAAAAAAAAAAAAAAAAAAAAAAAAAAAAAAAAAAAAAAAAAA="}` // the all-zero key
+	}
+	return good
 }
